@@ -5,6 +5,7 @@ import (
 	"database/sql/driver"
 	"encoding/binary"
 	"encoding/hex"
+	"errors"
 	"fmt"
 	"io"
 	"strings"
@@ -381,6 +382,32 @@ func init() {
 
 var c01held, c01heldCopy []byte
 
+var c01longDst c01dest
+var c01longRet [10]retained
+
+// the long-lived encoders write through this: it can be told to fail after a number of bytes
+type c01flakyWriter struct {
+	buf       *bytes.Buffer
+	failAfter int // < 0: never
+	n         int
+}
+
+func (w *c01flakyWriter) Write(p []byte) (int, error) {
+	if w.failAfter >= 0 && w.n+len(p) > w.failAfter {
+		k := w.failAfter - w.n
+		if k < 0 {
+			k = 0
+		}
+		w.buf.Write(p[:k])
+		w.n += k
+		return k, errors.New("injected write failure")
+	}
+	w.n += len(p)
+	return w.buf.Write(p)
+}
+
+var c01flaky = c01flakyWriter{failAfter: -1}
+
 // long-lived objects reused across all cases of a worker
 var c01hist = func() *struct {
 	buf   bytes.Buffer
@@ -396,8 +423,9 @@ var c01hist = func() *struct {
 		escan *ewkb.GeometryScanner
 		wscan *wkb.GeometryScanner
 	}{}
-	x.wenc = wkb.NewEncoder(&x.buf)
-	x.eenc = ewkb.NewEncoder(&x.buf)
+	x.wenc = wkb.NewEncoder(&c01flaky)
+	x.eenc = ewkb.NewEncoder(&c01flaky)
+	c01flaky.buf = &x.buf
 	x.escan = ewkb.Scanner(nil)
 	x.wscan = wkb.Scanner(nil)
 	return x
@@ -506,6 +534,38 @@ func c01one(c *h.Ctx, r *h.Rand, g, snap, want orb.Geometry, isNil bool, order b
 	c01held, c01heldCopy = edata, append([]byte{}, edata...)
 
 	// ---------- long-lived encoders and scanners (one per worker, reused for every case: state must not leak between uses)
+	if r.P(1, 5) {
+		// an unsuccessful use in between: NULL, garbage, a truncated message, a value of the wrong Go type for the
+		// scanners; a writer that fails for the encoders. Whatever they report, the next use must be unaffected.
+		var junk interface{}
+		switch r.Intn(6) {
+		case 0:
+			junk = nil
+		case 1:
+			junk = []byte{}
+		case 2:
+			junk = append([]byte{}, edata[:r.Intn(len(edata))]...)
+		case 3:
+			junk = []byte("not wkb at all")
+		case 4:
+			junk = 42
+		default:
+			b := append([]byte{}, edata...)
+			b[r.Intn(len(b))] ^= byte(1 << uint(r.Intn(8)))
+			junk = b
+		}
+		if pv, st := h.Catch(func() { c01hist.escan.Scan(junk); c01hist.wscan.Scan(junk) }); pv != nil {
+			fail("", "a scanner panicked on an unusable value", map[string]interface{}{"value": sv(junk), "panic": sv(pv), "stack": st})
+		}
+		c01flaky.failAfter = r.Intn(len(edata) + 1)
+		c01flaky.n = 0
+		c01hist.buf.Reset()
+		c01hist.wenc.SetByteOrder(order).Encode(g)
+		c01flaky.n = 0
+		c01hist.eenc.SetByteOrder(order).SetSRID(srid).Encode(g)
+		c01flaky.failAfter = -1
+		c.Count("unsuccessful_uses_of_long_lived_objects", 1)
+	}
 	c01hist.buf.Reset()
 	if err := c01hist.wenc.SetByteOrder(order).Encode(g); err != nil || !bytes.Equal(c01hist.buf.Bytes(), wdata) {
 		fail("", "a reused wkb.Encoder (SetByteOrder after earlier Encode calls) produces different bytes than Marshal", map[string]interface{}{"err": sv(err), "got": hex.EncodeToString(c01hist.buf.Bytes()), "want": hex.EncodeToString(wdata)})
@@ -535,6 +595,10 @@ func c01one(c *h.Ctx, r *h.Rand, g, snap, want orb.Geometry, isNil bool, order b
 		}
 		if gotSRID != wantSRID {
 			fail("", path+": SRID differs from the one written", map[string]interface{}{"got": gotSRID, "want": wantSRID})
+			return false
+		}
+		if !partsIndependent(got) {
+			fail("", path+": parts of one decoded geometry share memory (appending to one part overwrites another)", map[string]interface{}{"now": sv(got)})
 			return false
 		}
 		return true
@@ -573,9 +637,16 @@ func c01one(c *h.Ctx, r *h.Rand, g, snap, want orb.Geometry, isNil bool, order b
 	}
 
 	// ---------- scanners x destinations x framings
-	var dst c01dest
+	// the typed destinations live as long as the worker (the usual "one variable, many rows" loop): what an earlier row left
+	// in the caller's hands must not change when a later row is scanned into the same variable
+	dst := &c01longDst
 	for k := 0; k < 10; k++ {
 		exp, ok := c01expect(want, k)
+		if k > 0 && ok {
+			defer func(k int) {
+				c01longRet[k].set(dst.val(k), "scanning a later row into the same "+c01destNames[k]+" destination")
+			}(k)
+		}
 		for fk := 0; fk < 5; fk++ {
 			// wkb.Scanner: raw/hex framings of wdata; prefix framing = deprecated MySQL retry
 			var in []byte
@@ -617,6 +688,9 @@ func c01one(c *h.Ctx, r *h.Rand, g, snap, want orb.Geometry, isNil bool, order b
 			}
 			c.Eval()
 			c01judge(c, fail, "", "ewkb.Scanner", k, fk, ok, exp, serr, serr == ewkb.ErrIncorrectGeometry, es.Geometry, es.Valid, dst.val(k), es.SRID, srid)
+			if ok && serr == nil {
+				c01longRet[k].check(c)
+			}
 		}
 	}
 }
